@@ -555,6 +555,39 @@ def run_empty_container_then_append(chk, spec):
 		chk.fail("operation results are typed by the inference rule applied to their values", f"result-typing/empty-{spec['maker']}-then-append/exp={fmt(exp)}/got={fmt(got)}", f"{spec!r}: holds {short(vals, 100)} typed {fmt(got)}, rule says {fmt(exp)}")
 
 
+def run_vector_new(chk, spec):
+	"""Vector.new(x, n) is typed as the vector of n copies of x is: by the inference rule applied to its values (an IntEnum member is an int, a str subclass instance a str)"""
+	import enum, warnings
+	from datetime import date, datetime
+	class Colour(enum.IntEnum):
+		RED = 1
+	class Tag(str):
+		pass
+	class Day(date):
+		pass
+	import collections
+	Pt = collections.namedtuple("Pt", "x y")
+	x = {"int-enum": Colour.RED, "str-subclass": Tag("a"), "date-subclass": Day(2020, 1, 1), "namedtuple": Pt(1, 2), "bool": True, "float": 2.5, "none": None, "datetime": datetime(2020, 1, 1, 5), "int": 7}[spec["value"]]
+	n = spec["n"]
+	with warnings.catch_warnings():
+		warnings.simplefilter("ignore")
+		a = call(lambda: Vector.new(x, n))
+		b = call(lambda: Vector([x] * n))
+	chk.judged("result-typing", ("vector-new", spec["value"], n))
+	if not a.ok or not b.ok or a.value.schema() is None or b.value.schema() is None:
+		chk.skip("vector-new-unavailable")
+		return
+	if sch(a.value.schema()) != sch(b.value.schema()):
+		chk.fail("the dtype depends only on which types occur and on whether None occurs", f"infer/vector-new-differs-from-inference/{spec['value']}", f"{spec!r}: Vector.new(x, {n}) is {fmt(sch(a.value.schema()))}, Vector([x] * {n}) is {fmt(sch(b.value.schema()))}")
+		return
+	chk.observe(a.value, "vector-new")
+	if spec["value"] in ("int-enum", "str-subclass", "date-subclass"):
+		plain = {"int-enum": 5, "str-subclass": "b", "date-subclass": date(2021, 2, 3)}[spec["value"]]
+		w = call(a.value.__setitem__, 0, plain)
+		if not w.ok:
+			chk.fail("the dtype depends only on which types occur and on whether None occurs", f"infer/vector-new-refuses-its-own-kind/{spec['value']}", f"{spec!r}: writing {plain!r} into Vector.new({x!r}, {n}) raised {w!r}")
+
+
 def run_stale_result(chk, spec):
 	"""joins, aggregates and window results are typed from the VALUES they hold - not from what an operand's column once held (a None or a wider
 	value since overwritten) and not from the declared dtype of a column that has no rows left"""
@@ -689,7 +722,7 @@ def run_iterated_rows(chk, spec):
 				return
 
 
-RUNNERS = {"class_cells": run_class_cells, "empty_container_then_append": run_empty_container_then_append, "exotic_aggregates": run_exotic_aggregates, "iterated_rows": run_iterated_rows, "unprintable": run_unprintable, "stale_result": run_stale_result, "widen_only": run_widen_only, "expr": run_expr, "reject": run_reject, "dynclass": run_dynclass, "seq": run_seq, "vector": run_vector, "step": run_step, "commute": run_commute, "allnone": run_allnone, "result": run_result}
+RUNNERS = {"vector_new": run_vector_new, "class_cells": run_class_cells, "empty_container_then_append": run_empty_container_then_append, "exotic_aggregates": run_exotic_aggregates, "iterated_rows": run_iterated_rows, "unprintable": run_unprintable, "stale_result": run_stale_result, "widen_only": run_widen_only, "expr": run_expr, "reject": run_reject, "dynclass": run_dynclass, "seq": run_seq, "vector": run_vector, "step": run_step, "commute": run_commute, "allnone": run_allnone, "result": run_result}
 
 
 # ------------------------------------------------------------------ driver
@@ -748,6 +781,9 @@ def run(chk):
 		chk.case("expr", {"name": name}, "result-typing-expr")
 	for names in (["huge", "str"], ["huge", "float"], ["huge", "int"], ["norepr", "int"], ["norepr", "str", "huge"], ["str", "huge", "none"], ["huge", "date"], ["norepr", "norepr", "int"], ["huge", "str", "float"]):
 		chk.case("unprintable", {"names": names}, "seq-unprintable")
+	for value in ("int-enum", "str-subclass", "date-subclass", "namedtuple", "bool", "float", "none", "datetime", "int"):
+		for n in (1, 3):
+			chk.case("vector_new", {"value": value, "n": n}, "result-typing-vector-new")
 	for pool_ in ("int-float-class", "float-class-first", "str-class", "date-datetime-class", "int-DataType", "float-complex-class", "bool-int-class"):
 		chk.case("class_cells", {"pool": pool_}, "seq-class-cells")
 	for maker in ("list", "tuple", "range(0)", "range(5, 2)", "iter", "generator", "dict-keys", "set", "str-split", "table-column"):
